@@ -15,7 +15,9 @@ import (
 
 func main() {
 	log.SetLogLevelQuiet(log.Critical)
-	_ = extensions.Init(nil)
+	if os.Getenv("NOEXT") == "" {
+		_ = extensions.Init(nil)
+	}
 	noreg := len(os.Args) > 1 && os.Args[1] == "noreg"
 	s := eval.NewState()
 	s.NoReg = noreg
